@@ -312,4 +312,4 @@ Definition no_unlink (evs : list fevent) : Prop := ~ In EUnlink evs.
 
 (* projection used by the correspondence harness *)
 Definition fsummary (s : fstate) (cs : list cid) :=
-  (rev (trace s), map (fun c => (locked (cl s c), res (cl s c))) cs, now s).
+  (rev (trace s), map (fun c => (alive (cl s c) && locked (cl s c), res (cl s c))) cs, now s).
